@@ -619,7 +619,7 @@ func runC04(c *Ctx) {
 		}
 		for i := 0; i < c.N(100, 1000); i++ {
 			var content string
-			switch r.Intn(4) {
+			switch r.Intn(6) {
 			case 0:
 				content = r.Container(opts, '{').Build().(at.Object).String()
 			case 1:
@@ -631,8 +631,13 @@ func runC04(c *Ctx) {
 				if len(content) > 2 {
 					content = content[:r.Intn(len(content))]
 				}
-			default:
+			case 3:
 				content = "{\"a\":\n\n x}"
+			default:
+				// ill-formed UTF-8 between the brackets: ParseFile must reject it exactly as ParseObject does
+				content = r.Container(opts, '{').Build().(at.Object).String()
+				pos := 1 + r.Intn(len(content)-1)
+				content = content[:pos] + []string{"\x80", "\xC3", "\xE2\x82", "\xC0\xAF", "\xED\xA0\x80", "\xFF"}[r.Intn(6)] + content[pos:]
 			}
 			p := filepath.Join(dir, "f"+strconv.Itoa(i)+".json")
 			os.WriteFile(p, []byte(content), 0o644)
